@@ -9,16 +9,17 @@ import (
 func TestStaticGrammars(t *testing.T) {
 	strip := func(s string) string { return strings.Join(strings.Fields(s), "") }
 	for _, g := range StaticGrammars() {
-		typ := staticTypes[g.Static][0]
-		var fromType, fromIR string
-		for i := 0; i < typ.NumField(); i++ {
-			fromType += string(typ.Field(i).Tag)
-		}
-		for _, tag := range g.Prods[0].StructTags() {
-			fromIR += string(tag)
-		}
-		if strip(fromType) != strip(fromIR) {
-			t.Errorf("%s: tags %q, IR renders as %q", g.Static, strip(fromType), strip(fromIR))
+		for pi, typ := range staticTypes[g.Static] {
+			var fromType, fromIR string
+			for i := 0; i < typ.NumField(); i++ {
+				fromType += string(typ.Field(i).Tag)
+			}
+			for _, tag := range g.Prods[pi].StructTags() {
+				fromIR += string(tag)
+			}
+			if strip(fromType) != strip(fromIR) {
+				t.Errorf("%s production %d: tags %q, IR renders as %q", g.Static, pi, strip(fromType), strip(fromIR))
+			}
 		}
 		if _, err := Build(g); err != nil {
 			t.Errorf("%s: %v", g.Static, err)
